@@ -66,6 +66,13 @@ def run(rep):
     rep.notes["refused_up_front"] = refused
     rep.notes["ran_to_closed_form"] = len(recs) - refused - len(rep.violations)
     # 3. static facts of the real bytecode: decoder tables agree, jump targets valid
+    if tables[0]["tables"] is None:
+        # not a verdict about the engine: the extraction (by ast) did not recognise the interpreter loops any more
+        rep.notes["static_half"] = "skipped: decoder tables not extractable from vm.py (%s)" % tables[0].get("why", "")
+        rep.assumptions.append("static half (decoder tables agree, jump targets are instruction starts) NOT run on this tree: " + tables[0].get("why", ""))
+        rep.exhaustive = True
+        rep.evaluations = len(recs)
+        return
     wd = workdir(rep.pid, "static")
     tpath = os.path.join(wd, "tables.json")
     with open(tpath, "w") as f:
